@@ -334,11 +334,22 @@ def check_aliasing(ctx, wm: WeaverModel):
     s = aa.summ.get(WEAVER + '.__init__')
     for f in ('original_x', 'original_y'):
         o = s.field_stores.get(f, set())
+        if not o:
+            # the memory analysis sees no assignment to the field in the constructor: it is made through something the analysis does not follow
+            # (a property setter, setattr, ...)
+            ctx.unknown('C09.2', f"__init__: {f} is a fresh copy", 'no direct assignment to the field found in the constructor: what it receives is not known',
+                        wm.init.fi.loc(), wm.init.fi.qualname, f"freshorig:{f}")
+            continue
         ctx.check(bool(o) and o <= {FRESH}, 'C09.2', f"__init__: {f} is a fresh copy", f"may alias {sorted(o - {FRESH})}", wm.init.fi.loc(), wm.init.fi.qualname,
                   f"freshorig:{f}")
     s = aa.summ.get(WEAVER + '.restore_original')
     for f in ('x', 'y', 'reference_x', 'reference_y'):
         o = s.field_stores.get(f, set()) if s else set()
+        if not o:
+            ctx.unknown('C09.2', f"restore_original: {f} receives a fresh copy (later in-place work cannot reach the original)",
+                        'no direct assignment to the field found in restore_original: what it receives is not known',
+                        ctx.prog.func(WEAVER + '.restore_original').loc(), WEAVER + '.restore_original', f"restorefresh:{f}")
+            continue
         ctx.check(bool(o) and o <= {FRESH}, 'C09.2', f"restore_original: {f} receives a fresh copy (later in-place work cannot reach the original)",
                   f"may alias {sorted(o - {FRESH})}", ctx.prog.func(WEAVER + '.restore_original').loc(), WEAVER + '.restore_original', f"restorefresh:{f}")
 
